@@ -16,8 +16,17 @@ VARIABLE l
 vars == <<l>>
 NVals == {R(-2), R(-1), R(0), R(1), R(2), <<1, 2>>}
 BVals == {R(0), R(1)}
-ValsOf(nm) == IF nm \in {"p", "q"} THEN BVals ELSE NVals
-Envs(t) == LET vs == VarsOf(t) IN {e \in [vs -> NVals \cup BVals] : \A nm \in vs : e[nm] \in ValsOf(nm)}
+\* a variable that is the direct operand of a logic operator is a Boolean one (the simplifier lets it
+\* stand for `x or false`, and the compiler refuses a logic operand variable that is not declared Boolean)
+LogicOps == {"and", "or", "not", "u_not", "xor", "implies", "iff", "b_and", "b_or", "b_xor", "b_implies", "b_iff"}
+RECURSIVE LogicVars(_)
+KidsOf(e) == IF e.op \in {"num", "var"} THEN {}
+             ELSE IF "args" \in DOMAIN e THEN {e.args[i] : i \in 1..Len(e.args)}
+             ELSE IF "b" \in DOMAIN e THEN {e.a, e.b} ELSE {e.a}
+LogicVars(e) == (IF e.op \in LogicOps THEN {k.name : k \in {k \in KidsOf(e) : k.op = "var"}} ELSE {})
+                \cup UNION {LogicVars(k) : k \in KidsOf(e)}
+ValsOf(nm, t) == IF nm \in {"p", "q"} \cup LogicVars(t) THEN BVals ELSE NVals
+Envs(t) == LET vs == VarsOf(t) IN {e \in [vs -> NVals \cup BVals] : \A nm \in vs : e[nm] \in ValsOf(nm, t)}
 
 Usable(t) == t.op \notin {"panic", "unverifiable"}
 \* denominators that must stay visible: constant zero, or containing a variable
